@@ -283,6 +283,35 @@ def _video_extensions(ctx, hfn):
 for _v in ('Background', 'Sprite', 'Video'):
     row('C11', EVENTS, 'background-precedence:' + _v, _bg_precedence(_v))
 row('C11', EVENTS, 'video-extension-list', _video_extensions)
+EDITOR = '<section::editor::Editor as decode::DecodeBeatmap>::parse_editor'
+SKIPPING = {'filter_map', 'flat_map', 'flatten', 'filter'}
+STOPPING = {'map_while', 'take_while', 'scan', 'try_fold', 'try_for_each', 'skip_while', 'take', 'skip', 'step_by'}
+
+
+def _bookmarks_skip_invalid(ctx, hfn):
+    """bookmark entries that do not parse are skipped and the remaining ones kept: the list is built
+    with a skipping adapter and without one that ends (or offsets) the iteration"""
+    rhs = assignments(hfn, 'state', ['bookmarks']) or _assignments_any_base(hfn, ['bookmarks'])
+    if not rhs:
+        return False, 'no assignment to `state.bookmarks` found', None
+    for r, ln, anc in rhs:
+        names = set()
+
+        def visit(n, anc2):
+            if n.get('k') == 'mcall':
+                names.add(n.get('name'))
+        H.walk(r, visit)
+        tys = repr(r)
+        if names & STOPPING or 'collect::<std::result::Result' in tys or 'collect::<std::option::Option' in tys:
+            return False, ('the bookmark list is cut at the first invalid entry (`%s`): later valid bookmarks are lost'
+                           % ', '.join(sorted(names & STOPPING) or ['collect into Result/Option'])), ln
+        if not names & SKIPPING:
+            return False, 'the bookmark list is not built with an adapter that skips invalid entries', ln
+    return True, '', rhs[0][1]
+
+
+_bookmarks_skip_invalid.positive = True
+row('C11', EDITOR, 'bookmarks:invalid-entries-skipped', _bookmarks_skip_invalid)
 row('C11', None, 'const:MAX_PARSE_VALUE', _const('util::parse_number::MAX_PARSE_VALUE', 2147483647))
 for t in ('i32', 'f32', 'f64'):
     row('C11', '<%s as util::parse_number::ParseNumber>::parse' % t, 'limit:' + t,
@@ -302,6 +331,163 @@ SKIP = 'decode::DecodeBeatmap::should_skip_line'
 _TRIMMED = OR(M('trim_start', L('line')), M('trim', L('line')))
 row('C05', SKIP, 'skip:blank-or-comment',
     _ret(BIN('Or', M('is_empty', OR(L('line'), _TRIMMED)), M('starts_with', _TRIMMED, K('//')), commutative=True)))
+
+
+# version line: "take the format version from the first non-blank line if it carries the version prefix
+# (otherwise assume the latest version and let that line itself open a section)"
+TVL = 'format_version::try_version_from_line'
+row('C05', None, 'const:LATEST_FORMAT_VERSION', _const('format_version::LATEST_FORMAT_VERSION', 14))
+
+
+def _version_prefix(ctx, hfn):
+    h = ctx.facts.hir.get('format_version::VERSION_PREFIX')
+    if h is None:
+        return False, 'constant VERSION_PREFIX not found', None
+    v = ctx.const_value(h['body'])
+    ok = v == 'osu file format v'
+    return ok, '' if ok else 'the version prefix is %r, the format says "osu file format v"' % (v,), None
+
+
+row('C05', TVL, 'version-prefix', _version_prefix)
+def decision_paths(e, conds=()):
+    """flatten an if/else (+ early return) structure into [(conditions with polarity, leaf expr)]"""
+    e = strip(e) if isinstance(e, dict) and e.get('k') != 'block' else e
+    if not isinstance(e, dict):
+        return []
+    k = e.get('k')
+    if k == 'block':
+        cur = list(conds)
+        res = []
+        for st in e.get('stmts', []):
+            x = st
+            if isinstance(x, dict) and x.get('k') == 'if':
+                sub_t = decision_paths(x['t'], tuple(cur) + ((x['c'], True),))
+                returns = _always_returns(x['t'])
+                if 'e' in x:
+                    sub_e = decision_paths(x['e'], tuple(cur) + ((x['c'], False),))
+                    res += [p for p in sub_t if p[2]] + [p for p in sub_e if p[2]]
+                    if returns and _always_returns(x['e']):
+                        return res
+                else:
+                    res += [p for p in sub_t if p[2]]
+                    if returns:
+                        cur.append((x['c'], False))
+            elif isinstance(x, dict) and x.get('k') == 'ret':
+                res += decision_paths(x, tuple(cur))
+                return res
+        if 'expr' in e:
+            res += decision_paths(e['expr'], tuple(cur))
+        return res
+    if k == 'if':
+        res = decision_paths(e['t'], tuple(conds) + ((e['c'], True),))
+        if 'e' in e:
+            res += decision_paths(e['e'], tuple(conds) + ((e['c'], False),))
+        return res
+    if k == 'ret':
+        inner = e.get('e')
+        if isinstance(inner, dict) and strip(inner).get('k') == 'if':
+            return [(c, x, True) for c, x, _r in decision_paths(inner, conds)]
+        return [(tuple(conds), inner, True)]
+    return [(tuple(conds), e, True)]
+
+
+def _always_returns(e):
+    e2 = e
+    if isinstance(e2, dict) and e2.get('k') == 'block':
+        for st in e2.get('stmts', []):
+            if isinstance(st, dict) and st.get('k') == 'ret':
+                return True
+        tail = e2.get('expr')
+        return isinstance(tail, dict) and (tail.get('k') == 'ret' or _always_returns(tail))
+    return isinstance(e2, dict) and e2.get('k') == 'ret'
+
+
+def _version_line_table(ctx, hfn):
+    """try_version_from_line as a decision table over (has the prefix, is empty)"""
+    prefix = M('starts_with', L('line'), OR(P('VERSION_PREFIX'), K('osu file format v')))
+    empty = M('is_empty', L('line'))
+    got = {}
+    for conds, leaf, _r in decision_paths(hfn['body']):
+        key = {}
+        for c, pol in conds:
+            c2 = strip(c)
+            while isinstance(c2, dict) and c2.get('k') == 'unary' and c2.get('op') == 'Not':
+                c2 = strip(c2['e'])
+                pol = not pol
+            if prefix.m(ctx, c2):
+                key['prefix'] = pol
+            elif empty.m(ctx, c2):
+                key['empty'] = pol
+            else:
+                key['other'] = True
+        if CONTAINS(P('ControlFlow::Continue')).m(ctx, leaf):
+            kind = 'skip'
+        elif CONTAINS(P('UnknownFileFormat')).m(ctx, leaf):
+            kind = 'unknown-format'
+        else:
+            kind = 'version'
+        got.setdefault(kind, []).append(tuple(sorted(key.items())))
+    exp = {'skip': [(('empty', True), ('prefix', False))], 'unknown-format': [(('empty', False), ('prefix', False))],
+           'version': [(('prefix', True),)]}
+    ok = {k: sorted(v) for k, v in got.items()} == exp
+    return ok, '' if ok else ('version-line decisions are %s; expected: prefix -> version, no prefix and blank -> skip the '
+                              'line, no prefix and not blank -> unknown format' % got), None
+
+
+row('C05', TVL, 'version-line-decisions', _version_line_table)
+row('C05', TVL, 'number-after-last-v', _contains(M('rsplit', L('line'), K('v')), 'the version number is what follows the last `v`'))
+row('C05', 'decode::DecodeBeatmap::decode', 'default-version',
+    _contains(M('unwrap_or', L('version'), K(14)), 'a missing/unreadable version means the latest version'))
+row('C05', 'decode::parse_first_section', 'failed-version-line-may-open-a-section',
+    _contains(IF(L('use_curr_line'), CONTAINS(C('try_from_line', M('curr_line', ANY())))),
+              'the failed version line itself is tested as a section header'))
+
+
+def _version_table(ctx, hfn):
+    """(arm patterns from the outermost match inwards) -> (version, use-current-line flag)"""
+    got = {}
+
+    def sig(p):
+        if not isinstance(p, dict):
+            return '?'
+        k = p.get('k')
+        if k in ('ptstruct', 'pstruct'):
+            return p['path'].get('name', '?') + '(' + ','.join(sig(x) for x in p.get('pats', [])) + ')'
+        if k == 'pexpr':
+            return p['e'].get('name', '?')
+        if k == 'bind':
+            return '_'
+        if k == 'ptuple':
+            return '()'
+        return k or '?'
+
+    def visit(n, anc):
+        if n.get('k') != 'tup' or len(n['es']) != 2:
+            return
+        flag = ctx.const_value(n['es'][1])
+        if not isinstance(flag, bool):
+            return
+        ver = strip(n['es'][0])
+        vk = 'None' if ver.get('k') == 'path' and ver.get('name') == 'None' else (
+            'Some' if ver.get('k') == 'call' and ver['f'].get('name') == 'Some' else '?')
+        path = []
+        for i, a in enumerate(anc):
+            if a.get('k') == 'match' and not a.get('src', '').startswith('TryDesugar'):
+                for arm in a['arms']:
+                    inside = any(x is arm['body'] for x in anc[i + 1:]) or arm['body'] is n
+                    if inside:
+                        path.append(sig(arm['pat']))
+        got['/'.join(path)] = (vk, flag)
+    H.walk(hfn['body'], visit)
+    exp = {'Ok(Some(_))/Break(Ok(_))': ('Some', False), 'Ok(Some(_))/Break(Err(_))': ('None', True), 'Ok(None)': ('None', False)}
+    ok = got == exp
+    return ok, '' if ok else ('version outcomes are %s; expected: parsed version -> (Some, continue with the next line), '
+                              'failed version line -> (None, re-examine this line), end of input -> (None, -)' % got), None
+
+
+row('C05', 'decode::parse_version', 'version-outcomes', _version_table)
+row('C05', 'decode::parse_version', 'blank-lines-before-version',
+    _contains(C('try_version_from_line', L('line')), 'every line up to the version decision goes through try_version_from_line'))
 
 # ------------------------------------------------------------------------------ C12
 TPN = 'section::timing_points::control_points::'
